@@ -379,6 +379,26 @@ def _zero_check(case, queried, cond=None):
 
 # ------------------------------------------------------------------------------------------------ real code
 
+def _family(case):
+    g = case["g"]
+    nodes = sorted(G.all_nodes(g))
+    doms = case["domains"]
+    marks = {d["pop"]: set(d["tmarks"]) | set(d["policy"]) for d in doms if d["pop"] != TARGET}
+    cut = {d["pop"]: set(d["cut"]) for d in doms if d["pop"] != TARGET}
+    return FE.Family({"nodes": nodes, "di": g["di"], "bi": g["bi"]}, marks, random.Random(case["eval_seed"]), cut=cut, den=4,
+                     tri_latents=False)
+
+
+def _digest(case, enc):
+    import hashlib
+    try:
+        fam = _family(case)
+        arr = np.broadcast_to(fam.ev(enc), tuple(fam.card[v] for v in fam.nodes))
+        return hashlib.sha1(" ".join(str(x) for x in arr.reshape(-1)).encode()).hexdigest()[:16]
+    except FE.EvalError as e:
+        return "evalerr:" + str(e)[:50]
+
+
 def _in_quantifier(case):
     return "malformed" not in case
 
@@ -452,7 +472,7 @@ def run_python(case):
     else:
         enc = E.enc_expr(res.expression)
         ret_event = None if res.event is None else _enc_event(res.event)
-        out = ["ok", E.to_str_tree(enc), E.to_str_tree(ret_event) if ret_event is not None else "none"]
+        out = ["ok", _digest(case, enc), E.to_str_tree(enc), E.to_str_tree(ret_event) if ret_event is not None else "none"]
         tags["outcome"] = "zero" if isinstance(res.expression, Zero) else "answer"
         queried = case["event"] if kind == "uncond" else case["outcomes"]
         cond = None if kind == "uncond" else case["conditions"]
@@ -473,7 +493,7 @@ def run_python(case):
 
 # ------------------------------------------------------------------------------------------------ model side
 
-MODEL_READY = False
+MODEL_READY = True
 
 
 def request(case):
@@ -492,18 +512,39 @@ def request(case):
         doms.append([d["pop"], C.graph_sexp(G.all_nodes(gd), gd["di"], gd["bi"]), _topo(gd, case.get("topo_seed", 1) + k),
                      d["policy"]])
     if case["kind"] == "uncond":
-        return C.enc(["transport", "ctf_validate_u", gs, doms, case["event"]])
+        return C.enc(["transport", "ctf_uncond", gs, doms, case["event"]])
     return C.enc(["transport", "ctf_validate_c", gs, doms, case["outcomes"], case["conditions"]])
 
 
-def canon_model(case, rep):
-    # the model answers (ok) when validation accepts, (err invalid …) otherwise; compare on that level
-    return rep
+class _Out(list):
+    """model output; equal to the Python's when the verdicts agree and (for an answer) the expressions have the same
+    exact values on the case's family (or the same structure) and the simplified events are the same set"""
+    stats = {"structural": 0, "semantic_only": 0, "mismatch": 0}
 
-
-class _ValidOnly(list):
     def __eq__(self, other):
-        return isinstance(other, list) and bool(other) and ((self[0] == "err") == (other[0] == "err" and other[1] == "invalid"))
+        if not isinstance(other, list) or not other:
+            return False
+        if self[0] == "valid-only":          # conditional: only the validator is modelled
+            return (self[1] == "invalid") == (other[0] == "err" and other[1] == "invalid")
+        if self[0] != other[0]:
+            return False
+        if self[0] == "err":
+            return self[1] == other[1]
+        if self[0] != "ok":
+            return True
+        ev_ok = (self[3] == other[3]) or (isinstance(self[3], list) and isinstance(other[3], list)
+                                            and sorted(map(json.dumps, self[3])) == sorted(map(json.dumps, other[3])))
+        if not ev_ok:
+            _Out.stats["mismatch"] += 1
+            return False
+        if self[2] == other[2]:
+            _Out.stats["structural"] += 1
+            return True
+        if self[1] == other[1] and not str(self[1]).startswith("evalerr"):
+            _Out.stats["semantic_only"] += 1
+            return True
+        _Out.stats["mismatch"] += 1
+        return False
 
     def __ne__(self, other):
         return not self.__eq__(other)
@@ -511,8 +552,15 @@ class _ValidOnly(list):
     __hash__ = None
 
 
-def canon_model(case, rep):  # noqa: F811
-    return _ValidOnly(["err", "invalid"] if rep[0] == "err" else ["ok"])
+def canon_model(case, rep):
+    if case["kind"] == "cond":
+        return _Out(["valid-only", "invalid" if (rep[0] == "err" and rep[1] == "invalid") else "accepted"])
+    if rep[0] == "err":
+        return _Out(["err", "invalid" if rep[1] == "invalid" else "internal"])
+    if rep[0] == "fail":
+        return _Out(["fail"])
+    enc, ev = rep[1], rep[2]
+    return _Out(["ok", _digest(case, enc), E.to_str_tree(enc), "none" if ev == "none" else sorted(E.to_str_tree(ev), key=json.dumps)])
 
 
 def shrink(case):
